@@ -7,6 +7,8 @@
 set -u
 . /verif/bin/env.sh
 S=${VERIF_SCRATCH:-/var/tmp/verif-scratch-benign}
+[ -x /verif/bin/rename ] || ( cd /verif/selftest/rename && GOFLAGS= go build -o /verif/bin/rename main.go )
+[ -x /verif/bin/xform ] || ( cd /verif/selftest/xform && GOFLAGS= go build -o /verif/bin/xform main.go )
 vars=${@:-$(ls /verif/selftest/benign/*.sh)}
 bad=0
 for v in $vars; do
